@@ -16,6 +16,7 @@
 """Model Modifier class that produce the final quantized TFlite model."""
 
 import copy
+import os
 
 import numpy as np
 
@@ -70,6 +71,15 @@ class ModelModifier:
         instructions, quantized_model
     )
     constant_buffer_size = self._process_constant_map(quantized_model)
+    if os.environ.get('AI_EDGE_QUANTIZER_VERIF') == '1' and os.environ.get(
+        'AI_EDGE_QUANTIZER_VERIF_LARGE_MODEL_THRESHOLD'
+    ):
+      # Verification hook: drive the large-model path on small models.
+      if constant_buffer_size > int(
+          os.environ['AI_EDGE_QUANTIZER_VERIF_LARGE_MODEL_THRESHOLD']
+      ):
+        return self._serialize_large_model(quantized_model)
+      return self._serialize_small_model(quantized_model)
     if constant_buffer_size > 2**31 - 2**20:
       return self._serialize_large_model(quantized_model)
     else:
